@@ -301,6 +301,9 @@ class DRFNet(BayesianNetwork):
             n = self.Ns
         elif type(n) == int:
             n = [n] * self.e
+        # A single generator for the whole call, so that the bootstrap
+        # draws of different source nodes (and environments) are independent
+        rng = np.random.default_rng(random_state)
         # Generate a sample for each environment
         sampled_data = []
         for k in range(self.e):
@@ -309,7 +312,7 @@ class DRFNet(BayesianNetwork):
                 if self._random_forests[i, k] is None:
                     # Node has no parents, generate a sample using bootstrapping
                     sample[:, i] = _bootstrap(
-                        self._data[k][:, i], n[k], random_state=random_state
+                        self._data[k][:, i], n[k], random_state=rng
                     )
                 else:
                     parents = sempler.utils.pa(i, self.graph)
